@@ -44,4 +44,496 @@ theorem toC_foldl (l : List (Cx ℝ)) (a : Cx ℝ) :
 theorem toC_sum (l : List (Cx ℝ)) : toC (Cx.sum l) = (l.map toC).sum := by
   unfold Cx.sum; rw [toC_foldl]; simp
 
+
+/-! ### roots of unity, the model's DFT in ℂ, and the 1-D resampling operator -/
+
+noncomputable def zeta (N : ℕ) : ℂ := Complex.exp (2 * Real.pi * I / N)
+theorem zeta_pow_N (N : ℕ) (hN : N ≠ 0) : zeta N ^ N = 1 := (Complex.isPrimitiveRoot_exp N hN).pow_eq_one
+theorem zeta_pow_mod (N a : ℕ) (hN : N ≠ 0) : zeta N ^ (a % N) = zeta N ^ a :=
+  (pow_eq_pow_mod a (zeta_pow_N N hN)).symm
+
+theorem list_sum_range (f : ℕ → ℂ) (N : ℕ) :
+    ((List.range N).map f).sum = ∑ i ∈ Finset.range N, f i := by
+  induction N with
+  | zero => simp
+  | succ N ih => rw [List.range_succ, List.map_append, List.sum_append, ih, Finset.sum_range_succ]; simp
+
+theorem zipWith_range {α β : Type} (f : ℕ → α → β) (x : List α) (d : α) :
+    List.zipWith f (List.range x.length) x = (List.range x.length).map (fun k => f k (x.getD k d)) := by
+  apply List.ext_getElem?
+  intro i
+  simp only [List.getElem?_zipWith, List.getElem?_map, List.getElem?_range]
+  by_cases h : i < x.length
+  · simp [h, List.getD_eq_getElem?_getD]
+  · simp [h]
+
+theorem geom_zeta (m k : ℕ) (hm : m ≠ 0) (hk : k < m) :
+    ∑ j ∈ Finset.range m, (zeta m) ^ (k * j % m) = if k = 0 then (m : ℂ) else 0 := by
+  have h1 : ∀ j, (zeta m) ^ (k * j % m) = ((zeta m) ^ k) ^ j := by
+    intro j; rw [zeta_pow_mod m _ hm, pow_mul]
+  simp only [h1]
+  split
+  · rename_i h0; subst h0; simp
+  · rename_i h0
+    have hne : (zeta m) ^ k ≠ 1 :=
+      (Complex.isPrimitiveRoot_exp m hm).pow_ne_one_of_pos_of_lt h0 hk
+    rw [geom_sum_eq hne]
+    rw [← pow_mul, Nat.mul_comm, pow_mul, zeta_pow_N m hm]
+    simp
+
+theorem toC_twiddle_pos (N k n : ℕ) : toC (twiddle (R := ℝ) 1 N k n) = (zeta N) ^ (k * n % N) := by
+  unfold twiddle zeta
+  generalize k * n % N = r
+  rw [toC_cis, ← Complex.exp_nat_mul]
+  congr 1
+  simp only [NumReal.mul_eq, NumReal.ofRat_eq, NumReal.pi_eq]
+  push_cast
+  ring
+
+theorem toC_twiddle_neg (N k n : ℕ) : toC (twiddle (R := ℝ) (-1) N k n) = ((zeta N)⁻¹) ^ (k * n % N) := by
+  unfold twiddle zeta
+  generalize k * n % N = r
+  rw [toC_cis, ← Complex.exp_neg, ← Complex.exp_nat_mul]
+  congr 1
+  simp only [NumReal.mul_eq, NumReal.ofRat_eq, NumReal.pi_eq]
+  push_cast
+  ring
+
+/-- element `k` of the model's forward DFT, in ℂ -/
+theorem toC_dft_getD (x : List (Cx ℝ)) (k : ℕ) (hk : k < x.length) :
+    toC ((dft x).getD k Cx.zero)
+      = ∑ n ∈ Finset.range x.length, toC (x.getD n Cx.zero) * ((zeta x.length)⁻¹) ^ (k * n % x.length) := by
+  unfold dft
+  simp only
+  rw [List.getD_eq_getElem?_getD, List.getElem?_map, List.getElem?_range hk]
+  simp only [Option.map_some, Option.getD_some]
+  rw [zipWith_range _ x Cx.zero, toC_sum, List.map_map, list_sum_range]
+  apply Finset.sum_congr rfl
+  intro n _
+  simp [toC_twiddle_neg]
+
+/-- element `n` of the model's inverse DFT, in ℂ -/
+theorem toC_idft_getD (X : List (Cx ℝ)) (n : ℕ) (hn : n < X.length) :
+    toC ((idft X).getD n Cx.zero)
+      = (1 / (X.length : ℂ)) *
+        ∑ k ∈ Finset.range X.length, toC (X.getD k Cx.zero) * (zeta X.length) ^ (k * n % X.length) := by
+  unfold idft
+  simp only
+  rw [List.getD_eq_getElem?_getD, List.getElem?_map, List.getElem?_range hn]
+  simp only [Option.map_some, Option.getD_some]
+  rw [toC_smul, zipWith_range _ X Cx.zero, toC_sum, List.map_map, list_sum_range]
+  congr 1
+  · simp
+  · apply Finset.sum_congr rfl
+    intro k _
+    simp [toC_twiddle_pos]
+
+theorem length_dft (x : List (Cx ℝ)) : (dft x).length = x.length := by simp [dft]
+theorem length_idft (x : List (Cx ℝ)) : (idft x).length = x.length := by simp [idft]
+
+theorem list_sum_getD (l : List (Cx ℝ)) (f : Cx ℝ → ℂ) :
+    (l.map f).sum = ∑ j ∈ Finset.range l.length, f (l.getD j Cx.zero) := by
+  rw [← list_sum_range]
+  congr 1
+  apply List.ext_getElem?
+  intro i
+  simp only [List.getElem?_map, List.getElem?_range]
+  by_cases h : i < l.length
+  · simp [h, List.getD_eq_getElem?_getD]
+  · simp [h]
+
+/-- the samples of an inverse DFT add up to the DC coefficient -/
+theorem sum_idft (Y : List (Cx ℝ)) (hm : Y.length ≠ 0) :
+    toC (Cx.sum (idft Y)) = toC (Y.getD 0 Cx.zero) := by
+  rw [toC_sum, list_sum_getD, length_idft]
+  have h1 : ∀ j ∈ Finset.range Y.length, toC ((idft Y).getD j Cx.zero)
+      = (1 / (Y.length : ℂ)) *
+        ∑ k ∈ Finset.range Y.length, toC (Y.getD k Cx.zero) * (zeta Y.length) ^ (k * j % Y.length) := by
+    intro j hj
+    exact toC_idft_getD Y j (Finset.mem_range.mp hj)
+  rw [Finset.sum_congr rfl h1, ← Finset.mul_sum, Finset.sum_comm]
+  have h2 : ∀ k ∈ Finset.range Y.length,
+      ∑ j ∈ Finset.range Y.length, toC (Y.getD k Cx.zero) * (zeta Y.length) ^ (k * j % Y.length)
+        = toC (Y.getD k Cx.zero) * (if k = 0 then (Y.length : ℂ) else 0) := by
+    intro k hk
+    rw [← Finset.mul_sum, geom_zeta Y.length k hm (Finset.mem_range.mp hk)]
+  rw [Finset.sum_congr rfl h2]
+  rw [Finset.sum_eq_single 0]
+  · have : (Y.length : ℂ) ≠ 0 := by exact_mod_cast hm
+    simp
+    field_simp
+  · intro k _ hk0; simp [hk0]
+  · intro h; exact absurd (Finset.mem_range.mpr (Nat.pos_of_ne_zero hm)) h
+
+/-- the DC coefficient of the forward DFT is the sum of the samples -/
+theorem dft_zero (x : List (Cx ℝ)) (hn : x.length ≠ 0) :
+    toC ((dft x).getD 0 Cx.zero) = toC (Cx.sum x) := by
+  rw [toC_dft_getD x 0 (Nat.pos_of_ne_zero hn), toC_sum, list_sum_getD]
+  apply Finset.sum_congr rfl
+  intro n _
+  simp
+
+theorem spectrumMap_dc {β : Type} (z : β) (n m : ℕ) (F : List β) (hF : F.length = n)
+    (hn : 1 ≤ n) (hm : 1 ≤ m) : (spectrumMap z n m F).getD 0 z = F.getD 0 z := by
+  rw [List.getD_eq_getElem?_getD, getElem?_spectrumMap z n m F hF 0 (by omega), srcBin_dc hn hm]
+  simp [List.getD_eq_getElem?_getD]
+
+/-- **mean / DC preservation** of the 1-D Fourier resampling operator over ℝ -/
+theorem resample1_sum (x : List (Cx ℝ)) (m : ℕ) (hn : x.length ≠ 0) (hm : m ≠ 0) :
+    toC (Cx.sum (resample1 m x)) = ((m : ℂ) / (x.length : ℂ)) * toC (Cx.sum x) := by
+  unfold resample1 resample1U
+  have hY : (spectrumMap Cx.zero x.length m (dft x)).length = m :=
+    length_spectrumMap _ _ _ _ (length_dft x)
+  rw [toC_sum, List.map_map]
+  have : (List.map (toC ∘ Cx.smul (Num.ofRat ((m : Rat) / (x.length : Rat))))
+      (idft (spectrumMap Cx.zero x.length m (dft x)))).sum
+      = ((m : ℂ) / (x.length : ℂ)) * ((idft (spectrumMap Cx.zero x.length m (dft x))).map toC).sum := by
+    rw [← List.sum_map_mul_left]
+    congr 1
+    apply List.map_congr_left
+    intro a _
+    simp [Function.comp]
+  rw [this, ← toC_sum, sum_idft _ (by rw [hY]; exact hm),
+    spectrumMap_dc _ _ _ _ (length_dft x) (Nat.pos_of_ne_zero hn) (Nat.pos_of_ne_zero hm),
+    dft_zero x hn]
+
+theorem zeta_inv_pow_mod (N a : ℕ) (hN : N ≠ 0) : (zeta N)⁻¹ ^ (a % N) = (zeta N)⁻¹ ^ a := by
+  have : (zeta N)⁻¹ ^ N = 1 := by rw [inv_pow, zeta_pow_N N hN, inv_one]
+  exact (pow_eq_pow_mod a this).symm
+
+/-- orthogonality of the forward and inverse twiddles -/
+theorem orth (N j n : ℕ) (hN : N ≠ 0) (hj : j < N) (hn : n < N) :
+    ∑ k ∈ Finset.range N, (zeta N)⁻¹ ^ (k * n % N) * (zeta N) ^ (k * j % N)
+      = if n = j then (N : ℂ) else 0 := by
+  have hz : zeta N ≠ 0 := Complex.exp_ne_zero _
+  have h1 : ∀ k, (zeta N)⁻¹ ^ (k * n % N) * (zeta N) ^ (k * j % N)
+      = ((zeta N)⁻¹ ^ n * (zeta N) ^ j) ^ k := by
+    intro k
+    rw [zeta_inv_pow_mod N _ hN, zeta_pow_mod N _ hN, mul_pow, ← pow_mul, ← pow_mul,
+      Nat.mul_comm n k, Nat.mul_comm j k]
+  simp only [h1]
+  split
+  · rename_i h; subst h
+    have : (zeta N)⁻¹ ^ n * (zeta N) ^ n = 1 := by rw [inv_pow, inv_mul_cancel₀ (pow_ne_zero _ hz)]
+    rw [this]
+    simp
+  · rename_i h
+    have hne : (zeta N)⁻¹ ^ n * (zeta N) ^ j ≠ 1 := by
+      intro heq
+      have h2 : (zeta N) ^ j = (zeta N) ^ n := by
+        have := congrArg (fun t => (zeta N) ^ n * t) heq
+        simp only [inv_pow, mul_one] at this
+        rw [← mul_assoc, mul_inv_cancel₀ (pow_ne_zero _ hz), one_mul] at this
+        exact this
+      exact h ((Complex.isPrimitiveRoot_exp N hN).pow_inj hj hn h2).symm
+    rw [geom_sum_eq hne]
+    have hpow : ((zeta N)⁻¹ ^ n * (zeta N) ^ j) ^ N = 1 := by
+      rw [mul_pow, ← pow_mul, ← pow_mul, Nat.mul_comm n N, Nat.mul_comm j N, pow_mul, pow_mul,
+        inv_pow, zeta_pow_N N hN]
+      simp
+    rw [hpow]; simp
+
+/-- DFT inversion for the model's defining sums -/
+theorem idft_dft_getD (x : List (Cx ℝ)) (j : ℕ) (hj : j < x.length) :
+    toC ((idft (dft x)).getD j Cx.zero) = toC (x.getD j Cx.zero) := by
+  have hN : x.length ≠ 0 := by omega
+  rw [toC_idft_getD _ j (by rw [length_dft]; exact hj), length_dft]
+  have h1 : ∀ k ∈ Finset.range x.length,
+      toC ((dft x).getD k Cx.zero) * (zeta x.length) ^ (k * j % x.length)
+        = ∑ n ∈ Finset.range x.length, toC (x.getD n Cx.zero) *
+            ((zeta x.length)⁻¹ ^ (k * n % x.length) * (zeta x.length) ^ (k * j % x.length)) := by
+    intro k hk
+    rw [toC_dft_getD x k (Finset.mem_range.mp hk), Finset.sum_mul]
+    apply Finset.sum_congr rfl
+    intro n _; ring
+  rw [Finset.sum_congr rfl h1, Finset.sum_comm]
+  have h2 : ∀ n ∈ Finset.range x.length,
+      ∑ k ∈ Finset.range x.length, toC (x.getD n Cx.zero) *
+        ((zeta x.length)⁻¹ ^ (k * n % x.length) * (zeta x.length) ^ (k * j % x.length))
+        = toC (x.getD n Cx.zero) * (if n = j then (x.length : ℂ) else 0) := by
+    intro n hn
+    rw [← Finset.mul_sum, orth x.length j n hN hj (Finset.mem_range.mp hn)]
+  rw [Finset.sum_congr rfl h2, Finset.sum_eq_single j]
+  · have : (x.length : ℂ) ≠ 0 := by exact_mod_cast hN
+    simp
+    field_simp
+  · intro n _ hnj; simp [hnj]
+  · intro h; exact absurd (Finset.mem_range.mpr hj) h
+
+theorem idft_dft (x : List (Cx ℝ)) : idft (dft x) = x := by
+  apply List.ext_getElem
+  · rw [length_idft, length_dft]
+  · intro j h1 h2
+    apply toC_inj
+    have := idft_dft_getD x j h2
+    simpa [List.getD_eq_getElem?_getD, h1, h2] using this
+
+theorem spectrumMap_self {β : Type} (z : β) (n : ℕ) (F : List β) (hF : F.length = n) :
+    spectrumMap z n n F = F := by
+  apply List.ext_getElem?
+  intro k
+  by_cases hk : k < n
+  · rw [getElem?_spectrumMap z n n F hF k hk, srcBin_self hk]
+  · have h1 : (spectrumMap z n n F).length = n := length_spectrumMap z n n F hF
+    rw [List.getElem?_eq_none (by omega), List.getElem?_eq_none (by omega)]
+
+/-- **identity when the shape is unchanged** (over ℝ, exact) -/
+theorem resample1_same (x : List (Cx ℝ)) (hn : x.length ≠ 0) : resample1 x.length x = x := by
+  unfold resample1 resample1U
+  rw [spectrumMap_self _ _ _ (length_dft x), idft_dft]
+  have h1 : ((x.length : Rat) / (x.length : Rat)) = 1 := by
+    have : (x.length : Rat) ≠ 0 := by exact_mod_cast hn
+    exact div_self this
+  rw [h1]
+  have : ∀ a : Cx ℝ, Cx.smul (Num.ofRat 1) a = a := by
+    intro a; apply toC_inj; simp
+  rw [List.map_congr_left (fun a _ => this a)]
+  simp
+
+/-- a list of model complex numbers as a sequence in ℂ (zero beyond its end) -/
+noncomputable def vecC (x : List (Cx ℝ)) (i : ℕ) : ℂ := toC (x.getD i Cx.zero)
+
+/-- band-limited DFT resampling written out in ℂ: forward DFT of length `n`, coefficients
+moved by the index map `srcBin`, inverse DFT of length `m`, rescale `m/n` -/
+noncomputable def resampleC (n m : ℕ) (v : ℕ → ℂ) (j : ℕ) : ℂ :=
+  ((m : ℂ) / (n : ℂ)) * ((1 / (m : ℂ)) *
+    ∑ k' ∈ Finset.range m,
+      (match srcBin n m k' with
+        | some k => ∑ i ∈ Finset.range n, v i * (zeta n)⁻¹ ^ (k * i % n)
+        | none => 0) * (zeta m) ^ (k' * j % m))
+
+theorem length_resample1 (x : List (Cx ℝ)) (m : ℕ) : (resample1 m x).length = m := by
+  unfold resample1 resample1U
+  rw [List.length_map, length_idft, length_spectrumMap _ _ _ _ (length_dft x)]
+
+/-- the model's 1-D resampling operator is `resampleC` -/
+theorem resample1_getD (x : List (Cx ℝ)) (m j : ℕ) (hj : j < m) :
+    vecC (resample1 m x) j = resampleC x.length m (vecC x) j := by
+  unfold resample1 resample1U vecC resampleC
+  have hY : (spectrumMap Cx.zero x.length m (dft x)).length = m :=
+    length_spectrumMap _ _ _ _ (length_dft x)
+  have hlen : (idft (spectrumMap Cx.zero x.length m (dft x))).length = m := by rw [length_idft, hY]
+  rw [List.getD_eq_getElem?_getD, List.getElem?_map]
+  have hj' : j < (idft (spectrumMap Cx.zero x.length m (dft x))).length := by rw [hlen]; exact hj
+  rw [List.getElem?_eq_getElem hj']
+  simp only [Option.map_some, Option.getD_some, toC_smul]
+  have h0 := toC_idft_getD (spectrumMap Cx.zero x.length m (dft x)) j (by rw [hY]; exact hj)
+  rw [List.getD_eq_getElem?_getD, List.getElem?_eq_getElem hj'] at h0
+  simp only [Option.getD_some] at h0
+  rw [h0, hY]
+  congr 1
+  · simp
+  · congr 1
+    apply Finset.sum_congr rfl
+    intro k' hk'
+    congr 1
+    have hk'' := Finset.mem_range.mp hk'
+    rw [List.getD_eq_getElem?_getD, getElem?_spectrumMap _ _ _ _ (length_dft x) k' hk'']
+    cases hs : srcBin x.length m k' with
+    | none => simp
+    | some k =>
+      simp only
+      have hk := srcBin_lt hk'' hs
+      have := toC_dft_getD x k hk
+      rw [List.getD_eq_getElem?_getD] at this
+      rw [this]
+
+/-- `resampleC` is ℂ-linear in the signal -/
+theorem resampleC_linear (n m : ℕ) (a : ℂ) (u v : ℕ → ℂ) (j : ℕ) :
+    resampleC n m (fun i => a * u i + v i) j = a * resampleC n m u j + resampleC n m v j := by
+  unfold resampleC
+  have : ∀ k' ∈ Finset.range m,
+      (match srcBin n m k' with
+        | some k => ∑ i ∈ Finset.range n, (a * u i + v i) * (zeta n)⁻¹ ^ (k * i % n)
+        | none => 0) * (zeta m) ^ (k' * j % m)
+      = a * ((match srcBin n m k' with
+        | some k => ∑ i ∈ Finset.range n, u i * (zeta n)⁻¹ ^ (k * i % n)
+        | none => 0) * (zeta m) ^ (k' * j % m))
+        + (match srcBin n m k' with
+        | some k => ∑ i ∈ Finset.range n, v i * (zeta n)⁻¹ ^ (k * i % n)
+        | none => 0) * (zeta m) ^ (k' * j % m) := by
+    intro k' _
+    cases srcBin n m k' with
+    | none => simp
+    | some k =>
+      simp only
+      have hs : ∑ i ∈ Finset.range n, (a * u i + v i) * (zeta n)⁻¹ ^ (k * i % n)
+          = a * (∑ i ∈ Finset.range n, u i * (zeta n)⁻¹ ^ (k * i % n))
+            + ∑ i ∈ Finset.range n, v i * (zeta n)⁻¹ ^ (k * i % n) := by
+        rw [Finset.mul_sum, ← Finset.sum_add_distrib]
+        apply Finset.sum_congr rfl
+        intro i _; ring
+      rw [hs]; ring
+  rw [Finset.sum_congr rfl this, Finset.sum_add_distrib, ← Finset.mul_sum]
+  ring
+
+theorem vecC_lincomb (a : Cx ℝ) (x y : List (Cx ℝ)) (h : x.length = y.length) :
+    vecC (List.zipWith (· + ·) (x.map (a * ·)) y) = fun i => toC a * vecC x i + vecC y i := by
+  funext i
+  unfold vecC
+  simp only [List.getD_eq_getElem?_getD, List.getElem?_zipWith, List.getElem?_map]
+  by_cases hi : i < x.length
+  · have hi' : i < y.length := h ▸ hi
+    simp [List.getElem?_eq_getElem hi, List.getElem?_eq_getElem hi']
+  · have hi' : ¬ i < y.length := h ▸ hi
+    simp [List.getElem?_eq_none (Nat.le_of_not_lt hi), List.getElem?_eq_none (Nat.le_of_not_lt hi')]
+
+/-- **linearity** of the 1-D Fourier resampling operator (complex scalars, equal lengths) -/
+theorem resample1_linear (a : Cx ℝ) (x y : List (Cx ℝ)) (m : ℕ) (h : x.length = y.length) :
+    resample1 m (List.zipWith (· + ·) (x.map (a * ·)) y)
+      = List.zipWith (· + ·) ((resample1 m x).map (a * ·)) (resample1 m y) := by
+  apply List.ext_getElem
+  · simp [length_resample1]
+  · intro j h1 h2
+    have hj : j < m := by rw [length_resample1] at h1; exact h1
+    apply toC_inj
+    have hL := resample1_getD (List.zipWith (· + ·) (x.map (a * ·)) y) m j hj
+    have hlen : (List.zipWith (· + ·) (x.map (a * ·)) y).length = x.length := by simp [h]
+    rw [vecC_lincomb a x y h, hlen, resampleC_linear, ← resample1_getD x m j hj, h,
+      ← resample1_getD y m j hj] at hL
+    unfold vecC at hL
+    have e1 : (resample1 m (List.zipWith (· + ·) (x.map (a * ·)) y))[j]
+        = (resample1 m (List.zipWith (· + ·) (x.map (a * ·)) y)).getD j Cx.zero := by
+      rw [List.getD_eq_getElem?_getD, List.getElem?_eq_getElem h1]; rfl
+    rw [e1, hL]
+    have hx : j < (resample1 m x).length := by rw [length_resample1]; exact hj
+    have hy : j < (resample1 m y).length := by rw [length_resample1]; exact hj
+    simp [List.getD_eq_getElem?_getD, List.getElem?_eq_getElem hx, List.getElem?_eq_getElem hy]
+
+theorem spectrumMap_map {β γ : Type} (f : β → γ) (z : β) (n m : ℕ) (F : List β) :
+    spectrumMap (f z) n m (F.map f) = (spectrumMap z n m F).map f := by
+  unfold spectrumMap cropPad fftshift ifftshift
+  simp only [List.length_map]
+  split
+  · simp [List.map_drop, List.map_take]
+  · split
+    · simp [List.map_drop, List.map_take]
+    · simp [List.map_drop, List.map_take]
+
+/-- up-sampling then down-sampling the spectrum returns it (every coefficient survives) -/
+theorem spectrumMap_up_down {β : Type} (z : β) (n m : ℕ) (X : List β) (hX : X.length = n)
+    (hn : 1 ≤ n) (hnm : n ≤ m) : spectrumMap z m n (spectrumMap z n m X) = X := by
+  have hY : (spectrumMap z n m X).length = m := length_spectrumMap z n m X hX
+  apply List.ext_getElem?
+  intro k
+  by_cases hk : k < n
+  · obtain ⟨k', hk', h1, h2⟩ := srcBin_up_down hn hnm hk
+    rw [getElem?_spectrumMap z m n _ hY k hk, h2]
+    simp only
+    rw [getElem?_spectrumMap z n m X hX k' hk', h1]
+  · have h1 : (spectrumMap z m n (spectrumMap z n m X)).length = n := length_spectrumMap z m n _ hY
+    rw [List.getElem?_eq_none (by omega), List.getElem?_eq_none (by omega)]
+
+theorem dft_idft_getD (Y : List (Cx ℝ)) (k : ℕ) (hk : k < Y.length) :
+    toC ((dft (idft Y)).getD k Cx.zero) = toC (Y.getD k Cx.zero) := by
+  have hN : Y.length ≠ 0 := by omega
+  rw [toC_dft_getD _ k (by rw [length_idft]; exact hk), length_idft]
+  have h1 : ∀ n ∈ Finset.range Y.length,
+      toC ((idft Y).getD n Cx.zero) * (zeta Y.length)⁻¹ ^ (k * n % Y.length)
+        = ∑ l ∈ Finset.range Y.length, (1 / (Y.length : ℂ)) * (toC (Y.getD l Cx.zero) *
+            ((zeta Y.length)⁻¹ ^ (n * k % Y.length) * (zeta Y.length) ^ (n * l % Y.length))) := by
+    intro n hn
+    rw [toC_idft_getD Y n (Finset.mem_range.mp hn), Finset.mul_sum, Finset.sum_mul]
+    apply Finset.sum_congr rfl
+    intro l _
+    rw [Nat.mul_comm k n, Nat.mul_comm l n]; ring
+  rw [Finset.sum_congr rfl h1, Finset.sum_comm]
+  have h2 : ∀ l ∈ Finset.range Y.length,
+      ∑ n ∈ Finset.range Y.length, (1 / (Y.length : ℂ)) * (toC (Y.getD l Cx.zero) *
+        ((zeta Y.length)⁻¹ ^ (n * k % Y.length) * (zeta Y.length) ^ (n * l % Y.length)))
+        = (1 / (Y.length : ℂ)) * (toC (Y.getD l Cx.zero) * (if k = l then (Y.length : ℂ) else 0)) := by
+    intro l hl
+    rw [← Finset.mul_sum, ← Finset.mul_sum, orth Y.length l k hN (Finset.mem_range.mp hl) hk]
+  rw [Finset.sum_congr rfl h2, Finset.sum_eq_single k]
+  · have : (Y.length : ℂ) ≠ 0 := by exact_mod_cast hN
+    simp
+    field_simp
+  · intro l _ hlk; simp [Ne.symm hlk]
+  · intro h; exact absurd (Finset.mem_range.mpr hk) h
+
+theorem dft_idft (Y : List (Cx ℝ)) : dft (idft Y) = Y := by
+  apply List.ext_getElem
+  · rw [length_dft, length_idft]
+  · intro j h1 h2
+    apply toC_inj
+    have := dft_idft_getD Y j h2
+    simpa [List.getD_eq_getElem?_getD, h1, h2] using this
+
+theorem dft_smul (c : ℝ) (x : List (Cx ℝ)) : dft (x.map (Cx.smul c)) = (dft x).map (Cx.smul c) := by
+  apply List.ext_getElem
+  · simp [length_dft]
+  · intro k h1 h2
+    have hk : k < x.length := by simpa [length_dft] using h2
+    apply toC_inj
+    have e1 := toC_dft_getD (x.map (Cx.smul c)) k (by simpa using hk)
+    have e2 := toC_dft_getD x k hk
+    rw [List.getD_eq_getElem?_getD, List.getElem?_eq_getElem h1] at e1
+    simp only [Option.getD_some] at e1
+    rw [e1]
+    simp only [List.getElem_map, toC_smul]
+    have h2' : k < (dft x).length := by rw [length_dft]; exact hk
+    rw [List.getD_eq_getElem?_getD, List.getElem?_eq_getElem h2'] at e2
+    simp only [Option.getD_some] at e2
+    rw [e2, Finset.mul_sum, List.length_map]
+    apply Finset.sum_congr rfl
+    intro n hn
+    have hn' := Finset.mem_range.mp hn
+    simp [List.getD_eq_getElem?_getD, List.getElem?_eq_getElem hn']
+    ring
+
+theorem idft_smul (c : ℝ) (X : List (Cx ℝ)) : idft (X.map (Cx.smul c)) = (idft X).map (Cx.smul c) := by
+  apply List.ext_getElem
+  · simp [length_idft]
+  · intro k h1 h2
+    have hk : k < X.length := by simpa [length_idft] using h2
+    apply toC_inj
+    have e1 := toC_idft_getD (X.map (Cx.smul c)) k (by simpa using hk)
+    have e2 := toC_idft_getD X k hk
+    rw [List.getD_eq_getElem?_getD, List.getElem?_eq_getElem h1] at e1
+    simp only [Option.getD_some] at e1
+    rw [e1]
+    simp only [List.getElem_map, toC_smul]
+    have h2' : k < (idft X).length := by rw [length_idft]; exact hk
+    rw [List.getD_eq_getElem?_getD, List.getElem?_eq_getElem h2'] at e2
+    simp only [Option.getD_some] at e2
+    rw [e2, List.length_map]
+    rw [← mul_assoc, mul_comm (c : ℂ), mul_assoc, Finset.mul_sum (a := (c : ℂ))]
+    congr 1
+    apply Finset.sum_congr rfl
+    intro n hn
+    have hn' := Finset.mem_range.mp hn
+    simp [List.getD_eq_getElem?_getD, List.getElem?_eq_getElem hn']
+    ring
+
+/-- **up-sampling followed by down-sampling back returns the original** (complex signals over ℝ:
+exact for every signal; the Nyquist exclusion of the statement is only needed for real input,
+where the code takes the real part in between) -/
+theorem resample1_up_down (x : List (Cx ℝ)) (m : ℕ) (hn : 1 ≤ x.length) (hnm : x.length ≤ m) :
+    resample1 x.length (resample1 m x) = x := by
+  have hm : m ≠ 0 := by omega
+  have hlen : (resample1 m x).length = m := length_resample1 x m
+  have hY : (spectrumMap Cx.zero x.length m (dft x)).length = m :=
+    length_spectrumMap _ _ _ _ (length_dft x)
+  have hsm : ∀ c : ℝ, Cx.smul c (Cx.zero : Cx ℝ) = Cx.zero := by
+    intro c; apply toC_inj; simp
+  have outer : ∀ y : List (Cx ℝ), resample1 x.length y
+      = (idft (spectrumMap Cx.zero y.length x.length (dft y))).map
+          (Cx.smul (Num.ofRat ((x.length : Rat) / (y.length : Rat)))) := fun _ => rfl
+  have hy : resample1 m x = (idft (spectrumMap Cx.zero x.length m (dft x))).map
+      (Cx.smul (Num.ofRat ((m : Rat) / (x.length : Rat)))) := rfl
+  rw [outer, hlen, hy]
+  rw [dft_smul, dft_idft]
+  rw [← hsm (Num.ofRat ((m : Rat) / (x.length : Rat))), spectrumMap_map, hsm,
+    spectrumMap_up_down _ _ _ _ (length_dft x) hn hnm, idft_smul, idft_dft, List.map_map]
+  have hc : ∀ a : Cx ℝ, (Cx.smul (Num.ofRat ((x.length : Rat) / (m : Rat))) ∘
+      Cx.smul (Num.ofRat ((m : Rat) / (x.length : Rat)))) a = a := by
+    intro a
+    apply toC_inj
+    have h1 : (x.length : ℂ) ≠ 0 := by exact_mod_cast (by omega : x.length ≠ 0)
+    have h2 : (m : ℂ) ≠ 0 := by exact_mod_cast hm
+    simp [Function.comp]
+    field_simp
+  rw [List.map_congr_left (fun a _ => hc a)]
+  simp
+
 end QuantemModel.Resample
